@@ -32,6 +32,7 @@ type Cfg struct {
 	Lc    bool   `json:"lc"`
 	Ext   string `json:"ext"`
 	Plain bool   `json:"plain"`
+	Swy   bool   `json:"switchy,omitempty"`  // (C12) settings switches marked variant_only are executed under this configuration only
 	AOff  bool   `json:"asyncoff,omitempty"` // synchronous, but the schema carries asynchronous-write settings that are switched off (Enable false)
 	Cust  int    `json:"cust,omitempty"`     // > 0: a custom schema (NewCustomSchema) whose field constraints differ from the struct tags, see custom()
 }
@@ -89,6 +90,7 @@ type Op struct {
 	Close  bool       `json:"close,omitempty"`
 	Create bool       `json:"create,omitempty"`
 	Commit bool       `json:"commit,omitempty"`
+	VOnly  bool       `json:"variant_only,omitempty"` // switch: only executed when the test's configuration is "switchy" (the twin run skips it)
 	H      int        `json:"h,omitempty"`
 	From   int        `json:"from,omitempty"` // derive: the kept search value that is refined (And / Or / Operation) into handle H
 	Rev    bool       `json:"rev,omitempty"`
@@ -427,13 +429,22 @@ func (r *Runner) open(create bool) string {
 	r.lastMsg = ""
 	c := "ok"
 	if create {
-		err := r.db.Create(r.proto(), r.schema())
+		sch := r.schema()
+		err := r.db.Create(r.proto(), sch)
 		if err != nil {
 			r.lastMsg = err.Error()
 		}
 		c = classify(err)
 		if r.t.Aux {
-			if xc := r.auxCreate(); xc != "ok" {
+			// the second collection is created from the VERY SAME Schema value whenever that is possible (no custom
+			// field descriptors): one Schema value for several collections is the usual way to write it
+			xc := ""
+			if r.cfg.Cust == 0 {
+				xc = classify(r.db.Create(&Aux{}, sch))
+			} else {
+				xc = r.auxCreate()
+			}
+			if xc != "ok" {
 				c = "aux-" + xc
 			}
 		}
@@ -451,11 +462,22 @@ func (r *Runner) primeFlusher() {
 		return
 	}
 	_, p0 := vtime.Sleepers()
+	want := int64(0)
 	r.db.Schema(r.proto())
 	if s, err := r.db.Schema(r.proto()); err == nil && s.AsyncWrites != nil && s.AsyncWrites.Enable {
-		// the flusher of THIS handle and THESE settings has taken its first decision and is parked
-		vtime.WaitParked(p0, settleBound)
-		settle(1)
+		want++
+	}
+	if r.t.Aux {
+		// the second collection has a flusher of its own
+		r.db.Schema(&Aux{})
+		if s, err := r.db.Schema(&Aux{}); err == nil && s.AsyncWrites != nil && s.AsyncWrites.Enable {
+			want++
+		}
+	}
+	if want > 0 {
+		// the flusher(s) of THIS handle and THESE settings have taken their first decision and are parked
+		vtime.WaitParked(p0+want-1, settleBound)
+		settle(int(want))
 	}
 }
 
@@ -945,6 +967,18 @@ func (r *Runner) dropOp(op *Op) {
 			cc = "aux-" + xc
 		}
 	}
+	if r.t.VClock {
+		// the flushers of the dropped collections find themselves retired at their next wake-up: let them go now (no
+		// virtual time passes), then wait for the flusher(s) of the re-created collection(s) to park
+		vtime.Kick()
+		for dl := time.Now().Add(settleBound); time.Now().Before(dl); {
+			if n, _ := vtime.Sleepers(); n == 0 {
+				break
+			}
+			time.Sleep(100 * time.Microsecond)
+		}
+		r.primeFlusher()
+	}
 	r.hands, r.handQ = map[int]*sod.Search{}, map[int][]Cmp{}
 	r.recs, r.recIdx = []Vals{}, map[string]int{}
 	dir := r.walk()
@@ -1276,6 +1310,9 @@ func (r *Runner) tick(op *Op) {
 	r.recs, r.recIdx = []Vals{}, map[string]int{}
 	fl, _ := vtime.Sleepers()
 	e := ev{"ev": "tick", "n": n, "dir": r.walk(), "fl": fl, "settled": settled}
+	if r.t.Aux {
+		e["xdir"] = r.xwalk()
+	}
 	e["recs"] = r.recs
 	r.emit(e)
 }
@@ -1303,6 +1340,11 @@ func (r *Runner) drainFlushers() {
 
 // switchCfg re-creates the collection with other cache / async settings (C17).
 func (r *Runner) switchCfg(op *Op) {
+	if op.VOnly && !r.t.Cfg.Swy {
+		// the twin run of a C12 pair: the collection keeps its settings throughout
+		r.emit(ev{"ev": "switch", "c": "ok", "cfg": r.cfg, "skipped": true})
+		return
+	}
 	c := r.cfg
 	if op.Cfg != nil {
 		c.Cache, c.Async, c.Thr, c.TmoMs = op.Cfg.Cache, op.Cfg.Async, op.Cfg.Thr, op.Cfg.TmoMs
